@@ -79,10 +79,20 @@ class StmtMixin(object):
 
     # ----------------------------------------------------------------- blocks
     def exec_block(self, stmts, env):
+        # loop_body_tail: "nothing of the enclosing loop body follows this statement" - holds for a statement only if it
+        # holds for its block and the statement is the block's last one
+        outer_tail = getattr(self, "loop_body_tail", False)
+        try:
+            self._exec_block(stmts, env, outer_tail)
+        finally:
+            self.loop_body_tail = outer_tail
+
+    def _exec_block(self, stmts, env, outer_tail):
         i = 0
         n = len(stmts)
         while i < n:
             st = stmts[i]
+            self.loop_body_tail = outer_tail and i == n - 1
             if isinstance(st, ast.If) and (always_raises(st.body) != always_raises(st.orelse)):
                 # a guard that raises: record the raise, then everything after is
                 # only reached when the guard is false (standing assumption, no Phi needed)
@@ -106,6 +116,7 @@ class StmtMixin(object):
                                  body=st.body if a_term else st.body + rest,
                                  orelse=(st.orelse + rest) if a_term else st.orelse)
                     ast.copy_location(new, st)
+                    self.loop_body_tail = outer_tail
                     self.exec_stmt(new, env)
                     return
             self.exec_stmt(st, env)
@@ -732,15 +743,19 @@ class StmtMixin(object):
         seq = self.as_iterable(it, st)
         if isinstance(seq, ListV):
             tail = getattr(seq, "tail", None)
+            saved_tail = self.loop_body_tail
             try:
                 for item in list(seq.items):
                     self.assign(st.target, item, env)
+                    self.loop_body_tail = True
                     try:
                         self.exec_block(st.body, env)
                     except ContinueSignal:
                         continue
             except BreakSignal:
                 return
+            finally:
+                self.loop_body_tail = saved_tail
             if tail:
                 for part in tail:
                     self.run_for(st, part, env)
@@ -959,6 +974,34 @@ class StmtMixin(object):
             return NONE
         binders = tuple((c.var, c.seq.key() if c.seq is not None else ("range", c.lo, c.hi)) for c in self.loop_stack)
         base.adds.append((binders, args[0]))
+        return NONE
+
+    def m_SetAccV_update(self, base, args, kwargs, node):
+        """set.update(iterables...) with concrete operands; inside a symbolic loop or with symbolic operands: not modelled"""
+        if self.loop_stack:
+            self.err(node, "set.update inside a symbolic loop")
+        for a in args:
+            it = a
+            if isinstance(a, SetAccV):
+                if a.adds:
+                    self.err(node, "set.update with a symbolically filled set")
+                items = list(a.concrete)
+            else:
+                it = self.as_iterable(a, node)
+                if isinstance(it, DictV):
+                    items = [k for k, _ in it.items.values()]
+                elif isinstance(it, ListV) and not getattr(it, "tail", None):
+                    items = list(it.items)
+                else:
+                    self.err(node, "set.update with a symbolic operand %r" % (a,))
+            base.concrete.extend(items)
+        return NONE
+
+    def m_SetAccV_discard(self, base, args, kwargs, node):
+        if base.adds or self.loop_stack:
+            self.err(node, "set.discard on a symbolically filled set")
+        k = args[0].key()
+        base.concrete[:] = [c for c in base.concrete if c.key() != k]
         return NONE
 
     # ----------------------------------------------------------------- chunk idiom
